@@ -52,7 +52,7 @@ class C10(Check):
     nontrivial_rule = ("a problem with a connective / optional constraint / user expression returned a schedule (formula evaluated), or a "
                        "reference-valid candidate was pinned on it")
     expected_probes = ["kind:Not", "kind:And", "kind:Or", "kind:Xor", "kind:Implies", "kind:IfThenElse", "kind:ConstraintFromExpression",
-                       "kind:ForceApplyNOptionalConstraints", "optional_constraint", "pin_admitted", "pinned_violates_operand_alone", "nested"]
+                       "kind:ForceApplyNOptionalConstraints", "optional_constraint", "pin_admitted", "pinned_violates_operand_alone", "nested", "optional_operand"]
 
     def profile(self, rng, tier):
         big = tier == "thorough"
@@ -63,6 +63,7 @@ class C10(Check):
         return gen.profile(
             n_tasks=(2, 4 if big else 3), p_optional=0.15, p_zero=0.1, p_variable=0.3, n_workers=(0, 2), p_select=0.2, p_assign=0.3,
             p_horizon=0.95, slack=(1, 5), constraints=kinds, n_constraints=(1, 3), p_optional_constraint=0.6 if optional_mix else 0.0,
+            p_optional_operand=0.25 if rng.random() < 0.5 else 0.0,
             logic_depth=3 if big else 2,
         ), optional_mix
 
@@ -131,6 +132,8 @@ class C10(Check):
         for c in spec.get("constraints", []):
             if c["kind"] in LOGIC and any("kind" in x and x["kind"] in LOGIC for x in operands_of(c)):
                 v.probe("nested")
+        if sem.optional_operand_ids(spec):
+            v.probe("optional_operand")
         n_sol = self.judge_solutions(plan, result, v)
         n_pinned = 0
         for ev in result["events"]:
